@@ -1,6 +1,137 @@
-(* C24 — keyed durable stores match a dictionary model (statements only). *)
-From Hio Require Import Base.Prelude Model.Lmdb Model.IoSub Proofs.LmdbProofs.
+(* C24 — Keyed durable stores match a dictionary model for all keys.
+   Statements only; proofs are in Proofs/IoSub*.v, PlainProofs.v, LmdbProofs.v.
 
-Theorem C24_pin_then_get : forall (d : db bytes) k v, db_get (fst (db_put true d k v)) k = Some v.
-Proof. intros. now apply db_get_put_same. Qed.
-Print Assumptions C24_pin_then_get.
+   Vocabulary (Model/Lmdb.v, Model/IoSub.v): [run kind [] ops] runs an op history through the model
+   of Suber (Plain) / IoSuber (Io) / IoSetSuber (IoSet) over an initially empty LMDB sub-db and
+   returns the final db and every result; [spec_run_plain] / [spec_run_io] run the same history on
+   a dictionary  key -> value  /  key -> list of values  /  key -> insertion-ordered set  (a
+   function from keys, updated pointwise); [tokey] joins a tuple key with '_'; [abs_io d k] is what
+   the db holds under user key k.  [weights ops] counts the values ever added: the 32-hex-digit
+   ordinal overflows after 2^128 - 1 of them, which every theorem excludes.
+
+   FULL STATEMENT (false, see the three _refuted theorems):
+     forall kind ops, results of [run kind [] ops] = results of the dictionary keyed by the tuple keys.
+   PROVED: the same under the weakest uniform hypotheses that exclude the defective classes —
+     Io/IoSet: no key, followed by the ion separator '.', starts another key ([indep2]; keys that are
+               prefixes of each other such as "a"/"ab", and keys containing '.' such as "a.b"/"a.c",
+               are covered);
+     tuple keys: parts free of the tuple separator '_'. *)
+From Hio Require Import Base.Prelude Model.Lmdb Model.IoSub
+  Proofs.IoSubBlock Proofs.IoSubProofs Proofs.PlainProofs Proofs.IoSubTop.
+Local Open Scope N_scope.
+
+(* ---- plain store: full for str/bytes keys (LMDB's key domain: 1..511 bytes) ---- *)
+Theorem C24_plain_dictionary : forall ops,
+  Forall (fun o => plain_op o /\ badkey (tokey (op_key o)) = false) ops ->
+  snd (run Plain [] ops) = spec_run_plain bytes_eqb (fun o => tokey (op_key o)) (fun _ => None) ops.
+Proof. exact plain_bytes. Qed.
+Print Assumptions C24_plain_dictionary.
+
+(* ... and keyed by the tuples themselves when their parts are free of '_' *)
+Theorem C24_plain_tuple_partial : forall ops,
+  Forall (fun o => plain_op o /\ badkey (tokey (op_key o)) = false /\ clean_key1 (op_key o)) ops ->
+  snd (run Plain [] ops) = spec_run_plain (list_eqb bytes_eqb) op_key (fun _ => None) ops.
+Proof. exact plain_tuple. Qed.
+Print Assumptions C24_plain_tuple_partial.
+
+(* ---- Io / IoSet stores: one step.  abs (op d) = spec_op (abs d) with equal results, for every
+   op and every db reachable ([Rel U B d s]: sorted, written by suffix() for keys of U with
+   ordinals below B, and abstracting to s) ---- *)
+Theorem C24_io_step_partial : forall (U : bytes -> Prop) set B d s o,
+  (forall k k', U k -> U k' -> k <> k' -> indep2 k k') ->
+  Rel U B d s -> U (tokey (op_key o)) -> B + weight o <= maxsuffix ->
+  snd (step_io set d o) = snd (spec_io bytes_eqb set s o (tokey (op_key o))) /\
+  Rel U (B + weight o) (fst (step_io set d o)) (fst (spec_io bytes_eqb set s o (tokey (op_key o)))).
+Proof. intros U set B d s o HU. now apply step_io_refines. Qed.
+Print Assumptions C24_io_step_partial.
+
+(* ---- whole histories, dictionary keyed by the joined key ---- *)
+Theorem C24_io_dictionary_partial : forall (U : bytes -> Prop) set ops,
+  (forall k k', U k -> U k' -> k <> k' -> indep2 k k') ->
+  Forall (fun o => U (tokey (op_key o))) ops -> weights ops <= maxsuffix ->
+  snd (run (kind_of set) [] ops) =
+    spec_run_io bytes_eqb set (fun o => tokey (op_key o)) (fun _ => []) ops.
+Proof. exact io_bytes. Qed.
+Print Assumptions C24_io_dictionary_partial.
+
+(* ---- whole histories, dictionary keyed by the tuple keys: parts free of '_' and '.'
+   (keys that are prefixes of each other are covered) ---- *)
+Theorem C24_io_tuple_partial : forall set ops,
+  Forall (fun o => clean_key (op_key o)) ops -> weights ops <= maxsuffix ->
+  snd (run (kind_of set) [] ops) =
+    spec_run_io (list_eqb bytes_eqb) set op_key (fun _ => []) ops.
+Proof. exact io_tuple. Qed.
+Print Assumptions C24_io_tuple_partial.
+
+(* ---- operations on one key never change what another key returns ---- *)
+Theorem C24_noninterference_partial : forall (U : bytes -> Prop) set B d s o k',
+  (forall k k', U k -> U k' -> k <> k' -> indep2 k k') ->
+  Rel U B d s -> U (tokey (op_key o)) -> U k' -> k' <> tokey (op_key o) ->
+  B + weight o <= maxsuffix ->
+  abs_io (fst (step_io set d o)) k' = abs_io d k' /\
+  getIoVals (fst (step_io set d o)) k' = getIoVals d k'.
+Proof. exact io_noninterference. Qed.
+Print Assumptions C24_noninterference_partial.
+
+(* ---- the full statement is false (D27) ---- *)
+Definition kk : bytes := [107].                                   (* "k" *)
+Definition kk0 : bytes := 107 :: 46 :: repeat 48 32.              (* "k." ++ "0"*32 *)
+Definition ka : bytes := [97].                                    (* "a" *)
+Definition kab : bytes := [97; 46; 98].                           (* "a.b" *)
+
+(* a key k.<32 hex digits> sorts between the entries of k and ends k's cursor scan early *)
+Theorem C24_io_hexkey_refuted : exists set ops,
+  weights ops <= maxsuffix /\
+  snd (run (kind_of set) [] ops) <>
+    spec_run_io bytes_eqb set (fun o => tokey (op_key o)) (fun _ => []) ops.
+Proof.
+  exists false, [OAdd [kk] [118; 48]; OAdd [kk] [118; 49]; OAdd [kk0] [119]; OGet [kk]].
+  split; [vm_compute; discriminate|]. vm_compute. discriminate.
+Qed.
+Print Assumptions C24_io_hexkey_refuted.
+
+(* a key a.b sorts between the entries of a and a.<MaxSuffix>: getLast(a) finds nothing *)
+Theorem C24_io_getlast_refuted : exists set ops,
+  weights ops <= maxsuffix /\
+  snd (run (kind_of set) [] ops) <>
+    spec_run_io bytes_eqb set (fun o => tokey (op_key o)) (fun _ => []) ops.
+Proof.
+  exists true, [OAdd [ka] [49]; OAdd [kab] [50]; OGetLast [ka]].
+  split; [vm_compute; discriminate|]. vm_compute. discriminate.
+Qed.
+Print Assumptions C24_io_getlast_refuted.
+
+(* tuple keys joined by '_' collide: ("a_b","c") and ("a","b_c") *)
+Theorem C24_tuplekey_refuted : exists ops,
+  Forall (fun o => plain_op o /\ badkey (tokey (op_key o)) = false) ops /\
+  snd (run Plain [] ops) <> spec_run_plain (list_eqb bytes_eqb) op_key (fun _ => None) ops.
+Proof.
+  exists [OPut [[97; 95; 98]; [99]] [[120]]; OPut [[97]; [98; 95; 99]] [[121]]; OGet [[97]; [98; 95; 99]]].
+  split.
+  - repeat constructor.
+  - vm_compute. discriminate.
+Qed.
+Print Assumptions C24_tuplekey_refuted.
+
+(* ---- non-vacuity ---- *)
+(* prefix-related keys and keys containing '.' and '_' satisfy the independence hypothesis *)
+Example C24_indep_example :
+  indep2 [97] [97; 98] /\ indep2 [97; 98] [97; 98; 99] /\ indep2 [97; 46; 98] [97; 46; 99] /\
+  indep2 [] [97] /\ indep2 [97; 95; 98] [97] /\ ~ indep2 ka kab /\ ~ indep2 kk kk0.
+Proof. unfold indep2. vm_compute. repeat split; try reflexivity; intros [H1 H2]; discriminate. Qed.
+
+(* a history over "a", "ab", "b.c" with duplicates on both stores behaves as the dictionary says *)
+Example C24_history_example :
+  let a := [[97]] in let ab := [[97; 98]] in let adb := [[98; 46; 99]] in
+  let ops := [OAdd a [49]; OAdd ab [50]; OAdd a [49]; OPut adb [[51]; [51]; [52]]; OGet a; OGetLast a;
+              OPop a; OGet ab; OGetLast adb; OPin ab [[53]; [53]]; OCnt ab; ORem a; OGet a; OGet adb] in
+  snd (run Io [] ops) =
+    [Ok (RBool true); Ok (RBool true); Ok (RBool true); Ok (RBool true); Ok (RList [[49]; [49]]);
+     Ok (ROpt (Some [49])); Ok (ROpt (Some [49])); Ok (RList [[50]]); Ok (ROpt (Some [52]));
+     Ok (RBool true); Ok (RNat 2); Ok (RBool true); Ok (RList []); Ok (RList [[51]; [51]; [52]])] /\
+  snd (run IoSet [] ops) =
+    [Ok (RBool true); Ok (RBool true); Ok (RBool false); Ok (RBool true); Ok (RList [[49]]);
+     Ok (ROpt (Some [49])); Ok (ROpt (Some [49])); Ok (RList [[50]]); Ok (ROpt (Some [52]));
+     Ok (RBool true); Ok (RNat 1); Ok (RBool false); Ok (RList []); Ok (RList [[51]; [52]])] /\
+  snd (run Io [] ops) = spec_run_io bytes_eqb false (fun o => tokey (op_key o)) (fun _ => []) ops.
+Proof. vm_compute. repeat split. Qed.
